@@ -785,6 +785,7 @@ struct World {
     seg: u64,
     i: u64,
     probes: bool,
+    sparse_probes: bool,
     /// offsets learned per directory number: name -> (off, index) and the order
     last_status: String,
 }
@@ -879,9 +880,18 @@ impl World {
         }
     }
     fn probe_res(&mut self) {
+        self.probe_some(None)
+    }
+    /// getattr + refcount on the numbers with the given ids (None: every number ever seen), then the census
+    fn probe_some(&mut self, only: Option<Vec<usize>>) {
         if self.probes {
             let mut rows = Vec::new();
             for (i, k) in self.nums.clone().iter().enumerate() {
+                if let Some(o) = &only {
+                    if !o.contains(&(i + 1)) {
+                        continue;
+                    }
+                }
                 let (st, af, nl) = match self.cli.getattr(*k, None) {
                     // through Vfs/Server the attributes carry the translated number, not the host's: cannot tell (-1)
                     Ok(s) => ("OK".to_string(), if self.cfg.via == "pt" { self.by_ino.get(&(s.dev, s.ino)).copied().map(|x| x as i64).unwrap_or(0) } else { -1 }, s.nlink),
@@ -1056,8 +1066,17 @@ impl World {
             Err(e) => ev["status"] = json!(if e < 0 { "panic".to_string() } else { ename(e) }),
         }
         self.last_status = ev["status"].as_str().unwrap_or("").to_string();
+        let touched: Vec<usize> = ev["ents"].as_array().map(|a| a.iter().filter_map(|e| e[3].as_u64().map(|x| x as usize)).collect()).unwrap_or_default();
         self.emit(ev);
-        self.probe_res();
+        if self.sparse_probes {
+            // big directories: probe the directory and the numbers this reply delivered; everything after forgets
+            let mut t = touched;
+            t.push(o.p);
+            t.push(1);
+            self.probe_some(Some(t));
+        } else {
+            self.probe_res();
+        }
         out
     }
 }
@@ -1357,7 +1376,7 @@ fn rand_res(w: &mut World, seed: u64, steps: u64) {
 }
 
 /// C16: list one directory in many ways. `dir` is looked up from the root component by component.
-fn rand_dir(w: &mut World, dir: &str, seed: u64, steps: u64) {
+fn rand_dir(w: &mut World, dir: &str, seed: u64, steps: u64, mounts: &[String]) {
     let mut rng = Rng::new(seed);
     // reach the directory
     let mut did = 1usize;
@@ -1370,6 +1389,10 @@ fn rand_dir(w: &mut World, dir: &str, seed: u64, steps: u64) {
     }
     if w.cfg.via != "pseudo" {
         w.host_dir(did);
+    } else {
+        // the "host listing" of a pseudo directory is the list of mount points below it (type: unknown)
+        let v: Vec<Value> = mounts.iter().map(|m| json!([m, 0])).collect();
+        w.emit(json!({"e": "HostDir", "d": did, "names": v, "raw": []}));
     }
     let maxp = |plus: bool| packed(255, plus) as u32;
     let open = |w: &mut World| -> usize {
@@ -1508,7 +1531,7 @@ fn forget_all(w: &mut World, keep: usize) {
 
 /// C16: a TLC-exported resume pattern. Steps: (handle slot, resume position j in stream order, fit = number of
 /// following entries the buffer is sized for (0 = exactly the next entry), plus).
-fn dir_pattern(w: &mut World, dir: &str, pat: &[(usize, usize, usize, bool)]) {
+fn dir_pattern(w: &mut World, dir: &str, pat: &[(usize, usize, usize, bool)], mounts: &[String]) {
     let mut did = 1usize;
     for comp in dir.split('/').filter(|c| !c.is_empty()) {
         let mut o = Op::new("lookup");
@@ -1517,7 +1540,12 @@ fn dir_pattern(w: &mut World, dir: &str, pat: &[(usize, usize, usize, bool)]) {
         w.exec(&o);
         did = w.nums.len();
     }
-    w.host_dir(did);
+    if w.cfg.via != "pseudo" {
+        w.host_dir(did);
+    } else {
+        let v: Vec<Value> = mounts.iter().map(|m| json!([m, 0])).collect();
+        w.emit(json!({"e": "HostDir", "d": did, "names": v, "raw": []}));
+    }
     let mut handles = Vec::new();
     for _ in 0..2 {
         if w.cfg.no_opendir {
@@ -1586,6 +1614,7 @@ fn run_scenario(s: &Scen, work: &Path, part: &str, seg: u64, abi: Option<&str>) 
         seg,
         i: 0,
         probes: true,
+        sparse_probes: matches!(s.kind, ScenKind::RandDir(..) | ScenKind::DirPattern(..)),
         last_status: String::new(),
     };
     w.paths.insert(ROOT, String::new());
@@ -1601,10 +1630,6 @@ fn run_scenario(s: &Scen, work: &Path, part: &str, seg: u64, abi: Option<&str>) 
     w.emit(json!({"e": "Cfg", "fh": s.cfg.fh, "hostino": s.cfg.hostino, "no_open": s.cfg.no_open, "no_opendir": s.cfg.no_opendir, "via": s.cfg.via,
         "tag": s.cfg.tag(), "kind": kind, "dense": dense, "base": {"fds": fds, "inodes": a, "handles": b, "cookies": c}}));
     if s.cfg.via == "pseudo" {
-        // the "host listing" of the pseudo directory /p is the list of mount points below it
-        let v: Vec<Value> = s.mounts.iter().map(|m| json!([m, 0])).collect();
-        // /p is the first (only) child of the pseudo root: it will be number id 2
-        w.emit(json!({"e": "HostDir", "d": 2, "names": v, "raw": []}));
         w.probes = false;
     } else {
         w.host(true);
@@ -1625,8 +1650,8 @@ fn run_scenario(s: &Scen, work: &Path, part: &str, seg: u64, abi: Option<&str>) 
         }
         ScenKind::RandRefs(seed, n) => rand_refs(&mut w, *seed, *n),
         ScenKind::RandRes(seed, n) => rand_res(&mut w, *seed, *n),
-        ScenKind::RandDir(d, seed, n) => rand_dir(&mut w, d, *seed, *n),
-        ScenKind::DirPattern(d, pat) => dir_pattern(&mut w, d, pat),
+        ScenKind::RandDir(d, seed, n) => rand_dir(&mut w, d, *seed, *n, &s.mounts),
+        ScenKind::DirPattern(d, pat) => dir_pattern(&mut w, d, pat, &s.mounts),
     }
     w.emit(json!({"e": "End"}));
     w.tr.flush();
